@@ -147,6 +147,25 @@ def inline(prog, f, **kw):
             copy_propagate(g)
         except AnalysisBroken:
             pass
+    # iteration 4: table-driven code.  A local counter that only ever holds constants (`for (i = 0; i < 3; i++)`) is eliminated by
+    # partitioning the blocks per value of the counter (the loop is unrolled), elements of constant tables selected by a
+    # constant index are the constants of the initialiser, and a local array that is only ever indexed by constants is a set of
+    # scalar locals.  All three are refinements: every path of the result is a path of the source with the same events.
+    nu = unroll_counters(g)
+    if nu:
+        # a helper parameter that received the counter (`run_band(st, fd, i)` with `switch (idx)` inside) is a constant local now
+        from ..core import partition_flags
+        try:
+            partition_flags(g)
+        except AnalysisBroken:
+            pass
+    nu += fold_const_tables(prog, g, f)
+    nu += scalarise_arrays(g)
+    if nu:
+        try:
+            copy_propagate(g)
+        except AnalysisBroken:
+            pass
     nf = fold_constant_branches(g)
     if nf:
         drop_unreachable(g)
@@ -154,9 +173,16 @@ def inline(prog, f, **kw):
     # access path they denote (both are pure refinements: every path of the result is a path of the source)
     nc = expand_conditionals(g)
     na = addr_propagate(g)
-    if nf or nc or na:
+    if na and nu and fold_const_tables(prog, g, f):
+        # `b = &table[k]; switch (b->which)`: the record of a const table reached through a cached address
+        if fold_constant_branches(g):
+            drop_unreachable(g)
+    if nf or nc or na or nu:
         try:
-            copy_propagate(g)
+            # to a fixpoint: `$ret = fd->handler_in` (one definition left after a switch was folded); `handler = $ret`
+            for _ in range(4):
+                if not copy_propagate(g):
+                    break
         except AnalysisBroken:
             pass
     if nc:
@@ -164,6 +190,272 @@ def inline(prog, f, **kw):
         prune_infeasible(g)
     drop_unreachable(g)
     return g
+
+
+def _all_exprs(g):
+    """every expression tree of g (events and branch conditions)"""
+    for blk in g.blocks.values():
+        for e in blk.events:
+            yield e
+        if blk.term and blk.term.get('cond') is not None:
+            yield blk.term['cond']
+
+
+def _counter_candidates(g, max_bound=16):
+    """locals (address not taken) whose every definition is a statement `v = K`, `v++`, `v--`, `v += K`, `v -= K`, `v = v +- K`
+    (K an integer literal), that are never modified inside an expression, and that some branch compares with a small integer
+    literal (the bound of a counted loop over a fixed-size table)"""
+    taken = _addr_taken(g)
+    inits, steps, bad = {}, {}, set()
+
+    def self_step(name, r):
+        r = strip(r)
+        if isinstance(r, dict) and r.get('k') == 'bin' and r.get('op') in ('+', '-'):
+            if _is_read(r['l'] if isinstance(r['l'], dict) else {}, name) and const_value(r['r']) is not None:
+                return True
+            if r['op'] == '+' and _is_read(r['r'] if isinstance(r['r'], dict) else {}, name) and const_value(r['l']) is not None:
+                return True
+        return False
+    for e in g.events():
+        if e['ev'] == 'store':
+            l = strip(e['lhs'])
+            if l.get('k') == 'var' and l.get('vk') == 'local':
+                nm, op = l['name'], e.get('op')
+                if e.get('used'):
+                    bad.add(nm)
+                elif op == '=' and 'rhs' in e and isinstance(strip(e['rhs']), dict) and strip(e['rhs']).get('k') == 'int':
+                    inits.setdefault(nm, []).append(e)
+                elif op in ('++', '--') and 'rhs' not in e:
+                    steps.setdefault(nm, []).append(e)
+                elif op in ('+=', '-=') and 'rhs' in e and isinstance(strip(e['rhs']), dict) and strip(e['rhs']).get('k') == 'int':
+                    steps.setdefault(nm, []).append(e)
+                elif op == '=' and 'rhs' in e and self_step(nm, e['rhs']):
+                    steps.setdefault(nm, []).append(e)
+                else:
+                    bad.add(nm)
+    for x in _all_exprs(g):
+        for nd in walk(x):
+            if nd.get('k') in ('incdec', 'assign'):
+                for y in walk(nd):
+                    if y.get('k') == 'var':
+                        bad.add(y['name'])
+    bounded = set()
+    for blk in g.blocks.values():
+        c = blk.term.get('cond') if blk.term else None
+        if c is None or len(blk.succ) < 2:
+            continue
+        for nd in walk(c):
+            if nd.get('k') == 'bin' and nd.get('op') in ('<', '<=', '>', '>=', '!=', '=='):
+                for a, b in ((nd['l'], nd['r']), (nd['r'], nd['l'])):
+                    a, b = strip(a), strip(b)
+                    if isinstance(a, dict) and a.get('k') == 'var' and isinstance(b, dict) and b.get('k') == 'int' and abs(b['v']) <= max_bound:
+                        bounded.add(a['name'])
+    return sorted(n for n in steps if n in inits and n not in bad and n not in taken and n in bounded), steps
+
+
+def unroll_counters(g, cap=900):
+    """Loop unrolling by value partitioning: for a counter local (see _counter_candidates) the blocks are split per value of the
+    counter with the core's flag partitioning, which folds `i < 3`, `table[i]`'s index and `i = i + 1` for each known value; the
+    counter is forgotten where it is dead, so only the counted loop is duplicated.  A loop whose trip count is not a constant
+    exceeds the block cap and is left alone (everything is put back)."""
+    from ..core import _partition_one
+    done = 0
+    tried = set()
+    for _ in range(6):
+        # partitioning copies the events: the candidates are looked up afresh for every counter
+        names, steps = _counter_candidates(g)
+        names = [n_ for n_ in names if n_ not in tried]
+        if not names:
+            break
+        nm = names[0]
+        tried.add(nm)
+        saved_blocks = {b: (list(x.events), list(x.succ), x.term, x.noreturn) for b, x in g.blocks.items()}
+        saved = (g.entry, g.exit)
+        olds = []
+        for e in steps[nm]:
+            olds.append((e, e.get('op'), e.get('rhs'), 'rhs' in e))
+            var = dict(strip(e['lhs']))
+            rd = {'k': 'load', 'e': var}
+            if e['op'] in ('++', '--'):
+                e['rhs'] = {'k': 'bin', 'op': '+' if e['op'] == '++' else '-', 'l': rd, 'r': {'k': 'int', 'v': 1}, 'type': var.get('type', 'int')}
+                e['op'] = '='
+            elif e['op'] in ('+=', '-='):
+                e['rhs'] = {'k': 'bin', 'op': e['op'][0], 'l': rd, 'r': e['rhs'], 'type': var.get('type', 'int')}
+                e['op'] = '='
+        ok = False
+        try:
+            ok = _partition_one(g, nm, cap)
+        except AnalysisBroken:
+            ok = False
+        if ok:
+            # a step reached with the value unknown was turned into a two-way split on its right-hand side: not a counter
+            # with constant values
+            def sets_counter(b_):
+                ev_ = g.blocks[b_].events if b_ in g.blocks else []
+                return bool(ev_) and ev_[0]['ev'] == 'store' and strip(ev_[0]['lhs']).get('k') == 'var' and strip(ev_[0]['lhs'])['name'] == nm
+            if any(b.term and b.term.get('cls') == 'FlagSplit' and any(s_ is not None and sets_counter(s_) for s_ in b.succ)
+                   for b in g.blocks.values()):
+                ok = False
+        if ok and any(strip(e['lhs']).get('k') == 'var' and strip(e['lhs'])['name'] == nm and strip(e['rhs']).get('k') != 'int'
+                      for e in g.events() if e['ev'] == 'store' and 'rhs' in e):
+            ok = False
+        if ok and any(strip(e['lhs']).get('k') == 'var' and strip(e['lhs'])['name'] == nm and strip(e['rhs'])['v'] < 0
+                      and any(t in str(strip(e['lhs']).get('type', '')) for t in ('unsigned', 'uint', 'size_t'))
+                      for e in g.events() if e['ev'] == 'store' and 'rhs' in e):
+            ok = False      # an unsigned counter stepped below zero wraps around: the integer model is not its value
+        if not ok:
+            for (e, op, rhs, had) in olds:
+                e['op'] = op
+                if had:
+                    e['rhs'] = rhs
+                else:
+                    e.pop('rhs', None)
+            _restore(g, saved_blocks, saved)
+            _renumber(g)
+            continue
+        done += 1
+    return done
+
+
+def fold_const_tables(prog, g, root):
+    """`T[k]` with k an integer literal and T a const-qualified array of integers with an initialiser list (file scope, or a
+    local of the function) whose k-th element is an integer literal is that literal: the table cannot be written, so this is
+    what the read yields"""
+    from ..core import subst
+    statics = {}
+    for e in g.events():
+        if e['ev'] == 'decl' and isinstance(e.get('init'), dict) and e['init'].get('k') == 'init' \
+                and str(e.get('type', '')).startswith('const ') and '*' not in str(e.get('type', '')):
+            statics[e['name']] = e['init'].get('elems')
+    unit = prog.unit_of(root)
+    n = [0]
+
+    def table(v, origin):
+        if v.get('vk') in ('local', 'param'):
+            return statics.get(v['name']) if v.get('vk') == 'local' else None
+        if v['name'] in statics:
+            return statics[v['name']]
+        u = unit
+        if origin and origin in prog.funcs:
+            u = prog.unit_of(prog.funcs[origin]) or unit
+        gl = prog.global_for(u, v['name']) if u else prog.globals.get(v['name'])
+        if gl and not gl.get('extern_decl') and str(gl.get('type', '')).startswith('const ') and '*' not in str(gl.get('type', '')) and isinstance(gl.get('init'), dict) \
+                and gl['init'].get('k') == 'init':
+            return gl['init'].get('elems')
+        return None
+
+    def rewriter(origin):
+        def r(nd):
+            if nd.get('k') == 'load' and isinstance(nd.get('e'), dict) and nd['e'].get('k') == 'index':
+                ix = nd['e']
+                b, i = strip(ix.get('base')), strip(ix.get('idx'))
+                if isinstance(b, dict) and b.get('k') == 'var' and isinstance(i, dict) and i.get('k') == 'int':
+                    el = table(b, origin)
+                    if el and 0 <= i['v'] < len(el) and isinstance(el[i['v']], dict) and el[i['v']].get('k') == 'int':
+                        n[0] += 1
+                        return dict(el[i['v']])
+            if nd.get('k') == 'load' and isinstance(nd.get('e'), dict) and nd['e'].get('k') == 'member' and not nd['e'].get('arrow'):
+                # T[k].field of a const table of records
+                ix = strip(nd['e'].get('base'))
+                if isinstance(ix, dict) and ix.get('k') == 'index':
+                    b, i = strip(ix.get('base')), strip(ix.get('idx'))
+                    if isinstance(b, dict) and b.get('k') == 'var' and isinstance(i, dict) and i.get('k') == 'int':
+                        el = table(b, origin)
+                        if el and 0 <= i['v'] < len(el) and isinstance(el[i['v']], dict) and el[i['v']].get('k') == 'init':
+                            fv = (el[i['v']].get('fields') or {}).get(nd['e'].get('field'))
+                            if isinstance(fv, dict) and fv.get('k') == 'int':
+                                n[0] += 1
+                                return dict(fv)
+            return None
+        return lambda x: subst(x, r)
+    from ..core import fold
+    for blk in g.blocks.values():
+        keep = []
+        for e in blk.events:
+            m = n[0]
+            if e['ev'] == 'load':
+                y = rewriter(e.get('fn'))({'k': 'load', 'e': e['e']})
+                if n[0] != m and isinstance(y, dict) and y.get('k') == 'int':
+                    continue        # the separate read event of a table element that is a constant now
+                n[0] = m
+                e['e'] = rewriter(e.get('fn'))(e['e'])
+            else:
+                _rewrite_event(e, rewriter(e.get('fn')))
+            if n[0] != m:
+                for key in _EXPR_KEYS:
+                    if key in e:
+                        e[key] = fold(e[key])
+            keep.append(e)
+        blk.events[:] = keep
+        if blk.term and blk.term.get('cond') is not None:
+            m = n[0]
+            c = rewriter(None)(blk.term['cond'])
+            if n[0] != m:
+                blk.term = dict(blk.term, cond=fold(c))
+    if n[0]:
+        _renumber(g)
+    return n[0]
+
+
+def scalarise_arrays(g):
+    """a local array (not static) every occurrence of which is `A[k]` with k an integer literal inside the bound is replaced by the
+    scalar locals `A$k` (scalar replacement of aggregates), so that `slot[1] = &fd->handler_in; ... (*slot[1])(...)` is seen by
+    address / copy propagation like `p = &fd->handler_in; (*p)(...)`"""
+    from ..core import subst
+    arrays = {}
+    for e in g.events():
+        if e['ev'] == 'decl' and 'bound' in e and not e.get('static') and isinstance(e.get('bound'), int):
+            arrays[e['name']] = e
+    if not arrays:
+        return 0
+    total, good = {}, {}
+    for x in _all_exprs(g):
+        for nd in walk(x):
+            if nd.get('k') == 'var' and nd.get('name') in arrays:
+                total[nd['name']] = total.get(nd['name'], 0) + 1
+            if nd.get('k') == 'index':
+                b, i = nd.get('base'), strip(nd.get('idx'))
+                if isinstance(b, dict) and b.get('k') == 'var' and b.get('name') in arrays and isinstance(i, dict) and i.get('k') == 'int' \
+                        and 0 <= i['v'] < arrays[b['name']]['bound']:
+                    good[b['name']] = good.get(b['name'], 0) + 1
+    names = {a for a in arrays if total.get(a) and total.get(a) == good.get(a)
+             and not (isinstance(arrays[a].get('init'), dict) and arrays[a]['init'].get('k') != 'init')}
+    if not names:
+        return 0
+    n = [0]
+
+    def r(nd):
+        if nd.get('k') == 'index' and isinstance(nd.get('base'), dict) and nd['base'].get('k') == 'var' and nd['base'].get('name') in names:
+            n[0] += 1
+            out = {'k': 'var', 'name': '%s$%d' % (nd['base']['name'], strip(nd['idx'])['v']), 'vk': 'local'}
+            if 'type' in nd:
+                out['type'] = nd['type']
+            return out
+        return None
+    for blk in g.blocks.values():
+        out = []
+        for e in blk.events:
+            if e['ev'] == 'load':
+                e['e'] = subst(e['e'], r)
+            else:
+                for key in _EXPR_KEYS:
+                    if key in e:
+                        e[key] = subst(e[key], r)
+                if e['ev'] == 'store':
+                    e['lhs'] = subst(e['lhs'], r)
+            out.append(e)
+            if e['ev'] == 'decl' and e.get('name') in names and isinstance(e.get('init'), dict) and e['init'].get('k') == 'init':
+                # initialiser list: one store per element
+                for k, el in enumerate(e['init'].get('elems') or []):
+                    out.append({'ev': 'store', 'op': '=', 'lhs': {'k': 'var', 'name': '%s$%d' % (e['name'], k), 'vk': 'local'},
+                                'rhs': subst(el, r), 'loc': e.get('loc', ''), 'used': False, 'from_decl': True,
+                                'fn': e.get('fn'), 'chain': e.get('chain', [])})
+                    n[0] += 1
+        blk.events[:] = out
+        if blk.term and blk.term.get('cond') is not None:
+            blk.term = dict(blk.term, cond=subst(blk.term['cond'], r))
+    _renumber(g)
+    return n[0]
 
 
 def fold_constant_branches(g):
